@@ -910,6 +910,56 @@ def b_re_match(ip, args, kw, ctx):
     raise _uns("re.match on symbolic text")
 
 
+def b_suppress(ip, args, kw, ctx):
+    I = _I()
+    for c in args:
+        if not isinstance(c, I.ExcClass):
+            raise _uns("contextlib.suppress of something that is not an exception class")
+    return I.EnvObj("suppress", classes=list(args))
+
+
+def b_reversed(ip, args, kw, ctx):
+    return PyList(list(reversed(ip.iterate(args[0], ctx))))
+
+
+def b_slice(ip, args, kw, ctx):
+    if kw or not 1 <= len(args) <= 3 or any(isz(a) for a in args):
+        raise _uns("slice() with symbolic bounds")
+    return slice(*args)
+
+
+def b_reduce(ip, args, kw, ctx):
+    f, it = args[0], args[1]
+    items = ip.iterate(it, ctx)
+    if len(args) > 2:
+        acc = args[2]
+    elif items:
+        acc, items = items[0], items[1:]
+    else:
+        _raise("TypeError", "reduce() of empty iterable with no initial value")
+    for x in items:
+        acc = ip.call(f, [acc, x], {}, ctx)
+    return acc
+
+
+def b_op_add(ip, args, kw, ctx):
+    return ip.add(args[0], args[1], ctx)
+
+
+def b_attrgetter(ip, args, kw, ctx):
+    if len(args) != 1 or not isinstance(args[0], str) or "." in args[0]:
+        raise _uns("operator.attrgetter with several or dotted names")
+    name = args[0]
+    return _I().Builtin("attrgetter", lambda ip_, a, k, c: ip_.getattr(a[0], name, c))
+
+
+def b_itemgetter(ip, args, kw, ctx):
+    if len(args) != 1:
+        raise _uns("operator.itemgetter with several items")
+    key = args[0]
+    return _I().Builtin("itemgetter", lambda ip_, a, k, c: ip_.getitem(a[0], key, c))
+
+
 def b_re_compile(ip, args, kw, ctx):
     if kw or len(args) != 1 or not isinstance(args[0], str):
         raise _uns("re.compile with flags or a non-literal pattern")
@@ -1218,7 +1268,7 @@ def install(ip):
         ("list", b_list, list), ("tuple", b_tuple, tuple), ("dict", b_dict, dict), ("set", b_set, set),
         ("sum", b_sum, None), ("sorted", b_sorted, None), ("min", b_min, None), ("max", b_max, None),
         ("range", b_range, None), ("bytes", b_bytes, bytes), ("bool", b_bool, bool), ("abs", b_abs, None),
-        ("any", b_any, None), ("all", b_all, None), ("next", b_next, None), ("zip", b_zip, None), ("enumerate", b_enumerate, None),
+        ("any", b_any, None), ("all", b_all, None), ("next", b_next, None), ("reversed", b_reversed, None), ("slice", b_slice, None), ("zip", b_zip, None), ("enumerate", b_enumerate, None),
         ("hash", b_hash, None), ("chr", b_chr, None), ("ord", b_ord, None), ("print", b_noop, None),
     ]:
         b[name] = B(name, fn, pt)
@@ -1235,6 +1285,11 @@ def install(ip):
     e["textwrap.wrap"] = B("wrap", b_wrap)
     e["re.match"] = B("re.match", b_re_match)
     e["re.compile"] = B("re.compile", b_re_compile)
+    e["contextlib.suppress"] = B("suppress", b_suppress)
+    e["functools.reduce"] = B("reduce", b_reduce)
+    e["operator.add"] = B("operator.add", b_op_add)
+    e["operator.attrgetter"] = B("attrgetter", b_attrgetter)
+    e["operator.itemgetter"] = B("itemgetter", b_itemgetter)
     e["logging.getLogger"] = B("getLogger", b_getLogger)
     for lname, lv in (("DEBUG", 10), ("INFO", 20), ("WARNING", 30), ("ERROR", 40), ("CRITICAL", 50)):
         e["logging." + lname] = lv
